@@ -39,6 +39,58 @@ theorem exclude_exact (fs : List Filter) (sched : List Elem) (hne : fs ≠ []) :
   apply List.filter_congr
   intro t _; cases matchesAny fs t <;> rfl
 
+/-- **filters_order_irrelevant** — a filter list is a set of alternatives: any reordering (and, with it, any duplication-free
+    rearrangement) of the filters leaves exactly the same schedule. -/
+theorem filters_order_irrelevant (exclude : Bool) (fs fs' : List Filter) (h : fs.Perm fs') (sched : List Elem) :
+    applyFilters exclude fs sched = applyFilters exclude fs' sched := by
+  unfold applyFilters
+  have he : fs.isEmpty = fs'.isEmpty := by
+    cases fs with
+    | nil => rw [List.nil_perm.mp h]
+    | cons a l =>
+      cases fs' with
+      | nil => exact absurd (List.perm_nil.mp h) (by simp)
+      | cons b l' => rfl
+  rw [he]
+  split
+  · rfl
+  · congr 1
+    funext e
+    exact filterElem_perm h exclude e
+
+/-- **filtering_idempotent** — filtering an already filtered schedule with the same filters changes nothing: what was kept
+    still qualifies (in particular a kept parallel element is kept again with the same tasks). -/
+theorem filtering_idempotent (exclude : Bool) (fs : List Filter) (sched : List Elem) :
+    applyFilters exclude fs (applyFilters exclude fs sched) = applyFilters exclude fs sched := by
+  unfold applyFilters
+  split
+  · rfl
+  · exact filterMap_idem _ (fun a b => filterElem_idem exclude fs a b) sched
+
+/-- **include_and_exclude_partition_the_tasks** — for the same non-empty filter list every leaf task of the schedule is kept
+    by exactly one of `--include-tasks` and `--exclude-tasks`. -/
+theorem include_and_exclude_partition_the_tasks (fs : List Filter) (sched : List Elem) (hne : fs ≠ []) (t : Task) :
+    (leaves (applyFilters false fs sched)).count t + (leaves (applyFilters true fs sched)).count t = (leaves sched).count t := by
+  rw [include_exact fs sched hne, exclude_exact fs sched hne]
+  induction leaves sched with
+  | nil => rfl
+  | cons a l ih =>
+    simp only [List.filter_cons]
+    cases hm : matchesAny fs a <;> simp [List.count_cons, ih.symm] <;> omega
+
+/-- **filtered_track_needs_only_data_of_remaining_tasks** — whatever each task reads (`readBy`: corpora, document sets, any
+    resource), what the filtered schedule reads is exactly what the selected tasks read, in their order: track preparation
+    and worker start-up of a filtered track may depend on nothing that only removed tasks read. -/
+theorem filtered_track_needs_only_data_of_remaining_tasks {α : Type} (readBy : Task → List α) (exclude : Bool) (fs : List Filter)
+    (sched : List Elem) (hne : fs ≠ []) :
+    (leaves (applyFilters exclude fs sched)).flatMap readBy =
+      ((leaves sched).filter (fun t => matchesAny fs t != exclude)).flatMap readBy ∧
+    ∀ x ∈ (leaves (applyFilters exclude fs sched)).flatMap readBy, x ∈ (leaves sched).flatMap readBy := by
+  rw [leaves_applyFilters exclude fs sched hne]
+  refine ⟨rfl, fun x hx => ?_⟩
+  obtain ⟨t, ht, hxt⟩ := List.mem_flatMap.mp hx
+  exact List.mem_flatMap.mpr ⟨t, (List.mem_filter.mp ht).1, hxt⟩
+
 /-- without filters the track is returned as it is -/
 theorem no_filters_identity (exclude : Bool) (sched : List Elem) : applyFilters exclude [] sched = sched := rfl
 
